@@ -1,3 +1,172 @@
+import Driver.Util
 import Driver.Loop
-/- placeholder: the C03 view has no executable model yet -/
-def main : IO Unit := Drv.runLoop fun _ => .atom "bad-op"
+import PMV.Model.NI
+/- line-protocol handler for the C03 view: evaluates an expression tree of Model/NI.lean over IEEE doubles.
+   request:  (c03 <tree> (objs <obj>*) (idxs <idx>*) (ams <am>*) (tables (<fn> (<xbits> <ybits>)*)*) <cutoffbits>)
+   obj := (shape (valbits*) mask deriv)   deriv := - | ((valbits*) mask)
+   idx := (shape (ints*) mask)            am := (shape (bools*))
+   tree := (v i) | (un op t) | (bin op t t) | (red op (axes*) t) | (sort axis t) | (index t iv) | (su am t)
+           | (cmp op t t)   (root only)
+   answer: (shape (maskbits*) (valbits at unmasked*) deriv)  deriv := - | ((merged maskbits*) (valbits*))
+           | ValueError | IndexError -/
+namespace Drv.C03
+open PMV PMV.NI Drv
+
+abbrev Table := List (String × List (UInt64 × UInt64))
+
+def lookup (tb : Table) (fn : String) (x : Float) : Float :=
+  match tb.find? (·.1 == fn) with
+  | none => Float.ofBits 0x7ff8000000000000
+  | some (_, rows) =>
+    match rows.find? (·.1 == (x + 0.0).toBits) with
+    | some (_, y) => Float.ofBits y
+    | none =>
+      match rows.find? (·.1 == x.toBits) with
+      | some (_, y) => Float.ofBits y
+      | none => Float.ofBits 0x7ff8000000000000
+
+def fsign (x : Float) : Float := if x > 0 then 1 else if x < 0 then -1 else 0
+
+def prims (tb : Table) (cutoff : Float) : Prims Float :=
+  { zero := 0, one := 1, half := 0.5, negOne := -1,
+    posInf := Float.ofBits 0x7ff0000000000000, negInf := Float.ofBits 0xfff0000000000000, cutoff := cutoff,
+    add := (· + ·), sub := (· - ·), mul := (· * ·), div := (· / ·), neg := (- ·), abs := Float.abs, sign := fsign,
+    lt := fun a b => a < b, le := fun a b => a ≤ b, eq := fun a b => a == b,
+    sqrt := Float.sqrt, log := lookup tb "log", exp := lookup tb "exp", sin := lookup tb "sin", cos := lookup tb "cos",
+    tan := lookup tb "tan", asin := lookup tb "arcsin", acos := lookup tb "arccos", atan := lookup tb "arctan",
+    expOv := fun x => (lookup tb "exp" x).isInf, ofNat := fun n => n.toFloat }
+
+def floats? (x : Sx) : Option (Array Float) := do
+  let l ← x.nats?
+  some (l.map fun n => Float.ofBits n.toUInt64).toArray
+
+def mkArr {α : Type} [Inhabited α] (shape : Shape) (vals : Array α) (mask : MaskRep) : MArr α :=
+  ⟨shape, fun i => ⟨vals[ravel shape i]!, mask.at shape i⟩⟩
+
+def parseObj : Sx → Option (Obj Float)
+  | .list [sh, vs, m, d] => do
+    let shape ← sh.nats?
+    let vals ← floats? vs
+    let mask ← parseMask m
+    let main := mkArr shape vals mask
+    match d with
+    | .atom "-" => some ⟨main, none⟩
+    | .list [dvs, dm] => do
+      let dvals ← floats? dvs
+      let dmask ← parseMask dm
+      some ⟨main, some (mkArr shape dvals dmask)⟩
+    | _ => none
+  | _ => none
+
+def parseIdx : Sx → Option (MArr Int)
+  | .list [sh, vs, m] => do
+    let shape ← sh.nats?
+    let vals ← vs.ints?
+    let mask ← parseMask m
+    some (mkArr shape vals.toArray mask)
+  | _ => none
+
+def parseAm : Sx → Option (Arr Bool)
+  | .list [sh, bs] => do
+    let shape ← sh.nats?
+    let bits ← bs.bools?
+    some (Arr.ofFlat shape bits.toArray)
+  | _ => none
+
+def parseTable : Sx → Option (String × List (UInt64 × UInt64))
+  | .list (.atom fn :: rows) => do
+    let rs ← rows.mapM fun r => match r with
+      | .list [a, b] => do
+        let x ← a.toNat?
+        let y ← b.toNat?
+        some (x.toUInt64, y.toUInt64)
+      | _ => none
+    some (fn, rs)
+  | _ => none
+
+def parseU : String → Option UOp
+  | "neg" => some .neg | "abs" => some .abs | "sign" => some .sign | "sin" => some .sin | "cos" => some .cos
+  | "tan" => some .tan | "arctan" => some .arctan | "sqrt" => some .sqrt | "log" => some .log | "expC" => some .expC
+  | "recip" => some .recip | "arcsin" => some .arcsin | "arccos" => some .arccos | "sqrtNc" => some .sqrtNc
+  | "logNc" => some .logNc | "exp" => some .exp | "recipNz" => some .recipNz | "arcsinNc" => some .arcsinNc
+  | "arccosNc" => some .arccosNc | "wod" => some .wod | "pickle" => some .pickle | _ => none
+
+def parseB : String → Option BOp
+  | "add" => some .add | "sub" => some .sub | "mul" => some .mul | "div" => some .div | "stack" => some .stack
+  | _ => none
+
+def parseR : String → Option ROp
+  | "sum" => some .sum | "mean" => some .mean | "max" => some .max | "min" => some .min
+  | "argmax" => some .argmax | "argmin" => some .argmin | "median" => some .median | _ => none
+
+def parseC : String → Option COp
+  | "eq" => some .eq | "ne" => some .ne | "lt" => some .lt | "le" => some .le | "gt" => some .gt | "ge" => some .ge
+  | _ => none
+
+partial def parseExpr : Sx → Option Expr
+  | .list [.atom "v", i] => do some (.var (← i.toNat?))
+  | .list [.atom "un", .atom op, e] => do some (.un (← parseU op) (← parseExpr e))
+  | .list [.atom "bin", .atom op, e1, e2] => do some (.bin (← parseB op) (← parseExpr e1) (← parseExpr e2))
+  | .list [.atom "red", .atom op, axes, e] => do some (.red (← parseR op) (← axes.nats?) (← parseExpr e))
+  | .list [.atom "sort", ax, e] => do some (.sort (← ax.toNat?) (← parseExpr e))
+  | .list [.atom "index", e, iv] => do some (.index (← parseExpr e) (← iv.toNat?))
+  | .list [.atom "su", am, e] => do some (.shrinkUnshrink (← am.toNat?) (← parseExpr e))
+  | _ => none
+
+def bitsSx (x : Float) : Sx :=
+  if x.isNaN then .atom "nan" else Sx.ofNat (x + 0.0).toBits.toNat
+
+def errSx : Err → Sx
+  | .value => .atom "ValueError"
+  | .index => .atom "IndexError"
+
+def arrSx (a : MArr Float) (extra : Option (MArr Float)) : List Sx :=
+  let cells := a.toList
+  let ms := match extra with
+    | none => cells.map (·.m)
+    | some p => (cells.zip p.toList).map fun (c, q) => c.m || q.m
+  let shown := ((cells.zip ms).filter fun (_, m) => !m).map fun (c, _) => bitsSx c.v
+  [Sx.ofBools ms, .list shown]
+
+def objSx (x : Obj Float) : Sx :=
+  let d := match x.d with
+    | none => Sx.atom "-"
+    | some dx => .list (arrSx dx (some x.main))
+  .list ([Sx.ofNats x.main.shape] ++ arrSx x.main none ++ [d])
+
+def boolSx (a : MArr Bool) : Sx :=
+  let cells := a.toList
+  .list [Sx.ofNats a.shape, Sx.ofBools (cells.map (·.m)),
+         .list ((cells.filter fun c => !c.m).map fun c => bitsSx (if c.v then 1.0 else 0.0)), .atom "-"]
+
+def handle : List Sx → Sx
+  | [tree, .list (.atom "objs" :: objs), .list (.atom "idxs" :: idxs), .list (.atom "ams" :: ams),
+     .list (.atom "tables" :: tbs), cut] =>
+    match objs.mapM parseObj, idxs.mapM parseIdx, ams.mapM parseAm, tbs.mapM parseTable, cut.toNat? with
+    | some objs, some idxs, some ams, some tb, some cut =>
+      let P := prims tb (Float.ofBits cut.toUInt64)
+      let env : Env Float := ⟨objs, idxs, ams⟩
+      match tree with
+      | .list [.atom "cmp", .atom op, e1, e2] =>
+        match parseC op, parseExpr e1, parseExpr e2 with
+        | some op, some e1, some e2 =>
+          match evalCmp P env op e1 e2 with
+          | .ok r => boolSx r
+          | .error e => errSx e
+        | _, _, _ => err "cmp"
+      | t =>
+        match parseExpr t with
+        | some e =>
+          match eval P env e with
+          | .ok x => objSx x
+          | .error e => errSx e
+        | none => err "tree"
+    | _, _, _, _, _ => err "env"
+  | _ => err "c03-request"
+
+end Drv.C03
+
+def main : IO Unit := Drv.runLoop fun x =>
+  match x with
+  | .list (.atom "c03" :: rest) => Drv.C03.handle rest
+  | _ => .atom "bad-op"
